@@ -37,6 +37,8 @@ class Profile:
         self.low_latency = kw.get('low_latency', True)
         self.hidden_sys = kw.get('hidden_sys', True)        # outputs_filter / outputs_metrics on sometimes
         self.staggered_start = kw.get('staggered_start', True)
+        self.eph_kinds = kw.get('eph_kinds', (1, 2))
+        self.poll_choices = kw.get('poll_choices', (100, 20, 50, 250))
 
 
 def _g(ch, n):
@@ -157,7 +159,7 @@ def gen_knobs(ch, prof):
     net['conn_max_ns'] = ch.pick('gen', [5, 1, 50, 300, 2000]) * MS
     if prof.knob_variation:
         if _chance(ch, 1, 5):
-            k['ZMQ_POLL_TIMEOUT'] = ch.pick('gen', [100, 20, 50, 250])
+            k['ZMQ_POLL_TIMEOUT'] = ch.pick('gen', list(prof.poll_choices))
         if _chance(ch, 1, 6):
             k['ZMQ_CONN_HANDSHAKE'] = False
         if _chance(ch, 1, 6):
@@ -323,7 +325,7 @@ def gen_scenario(ch, prof):
         n = 0
         for up in pubs:
             for _ in range(ch.rng_int('gen', 0, prof.ephemeral)):
-                eph = ch.rng_int('gen', 1, 2)
+                eph = ch.pick('gen', list(prof.eph_kinds))
                 sub = gen_sub(ch, prof, nodes[up]['out'])
                 e = {'sources': [{'from': up, 'sub': sub, 'eph': eph}], 'has_output': False,
                      'proc_ns': [ch.pick('gen', [0, 50, 500, 5000, 10 ** 6]) * MS], 'side': True}
@@ -388,3 +390,46 @@ def gen_faults(ch, prof, sc):
             node = ch.pick('fault', order)
             out.append({'kind': 'stop', 'node': node, 'at_ns': at, 'plus_steps': plus})
     return out
+
+
+def gen_c04(ch, prof, stall_s=None):
+    """A synchronized consumer stalls inside process() at a drawn frame; endless source."""
+    sc = {'shape': 'stall', 'profile': prof.name, 'nodes': {}, 'order': [], 'knobs': gen_knobs(ch, prof)}
+    nodes, order = sc['nodes'], sc['order']
+
+    def add(nid, spec):
+        nodes[nid] = spec
+        order.append(nid)
+        return spec
+
+    src = add('s0', {'src': True, 'n_frames': 10 ** 9, 'period_ns': ch.pick('gen', [1, 0, 5, 30, 100]) * MS,
+                     'out': [{'name': 'main'}], 'form': ch.pick('gen', ['dict', 'callable'])})
+    prev = 's0'
+    for i in range(ch.rng_int('gen', 0, 2)):
+        add(f'r{i}', {'sources': [{'from': prev, 'sub': None}], 'out': [{'name': 'main'}],
+                      'proc_ns': gen_proc_pattern(ch, prof), 'form': 'dict'})
+        prev = f'r{i}'
+    dur = (stall_s if stall_s is not None else ch.pick('gen', [20, 30, 60])) * SEC
+    add('k', {'sources': [{'from': prev, 'sub': None}], 'has_output': False, 'proc_ns': gen_proc_pattern(ch, prof),
+              'stall_at': [ch.rng_int('gen', 1, 12), dur]})
+    if _chance(ch, 1, 2):
+        add('k2', {'sources': [{'from': prev, 'sub': None}], 'has_output': False,
+                   'proc_ns': gen_proc_pattern(ch, prof)})
+    if _chance(ch, 1, 3) and prev != 's0':
+        add('k3', {'sources': [{'from': 's0', 'sub': None}], 'has_output': False, 'proc_ns': gen_proc_pattern(ch, prof)})
+    for nid in order:
+        if _chance(ch, 1, 5):
+            nodes[nid]['sources_low_latency'] = True
+    consumers = {}
+    for nid in order:
+        for s in nodes[nid].get('sources') or []:
+            consumers.setdefault(s['from'], []).append(nid)
+    for up, cons in consumers.items():
+        if _chance(ch, 1, 2):
+            nodes[up]['outputs_required'] = list(cons)
+    sc['n_frames'] = 10 ** 9
+    sc['faults'] = []
+    sc['settle_ns'] = 10 ** 18
+    sc['t_end_ns'] = 400 * SEC
+    sc['max_steps'] = 150_000
+    return sc
